@@ -234,6 +234,9 @@ func main() {
 			if l.fed {
 				cmd.Args = append(cmd.Args, "-fed")
 			}
+			if c.Tier == "thorough" {
+				cmd.Args = append(cmd.Args, "-name-pairs-full")
+			}
 			cmd.Stdout, cmd.Stderr = os.Stderr, os.Stderr
 			if err := cmd.Run(); err != nil {
 				runErrs[i] = fmt.Sprintf("harness for layout %s failed: %v", l.name, err)
@@ -311,7 +314,7 @@ func main() {
 	}
 	c.Cov["evaluations"] = evaluations
 	c.Cov["distinct_nontrivial"] = nontrivial
-	c.Cov["rule"] = "Per probe layout: (1) every assignment of the schema feature grid with at most grid_max_nondefault_slots non-default slots, simplest first; each schema is served through the generated Config.Schema and queried with the standard introspection.Query, an extended query with includeDeprecated:true, the same with includeDeprecated:false, __type(name:) for every user type, and the standard query with introspection disabled (evaluations = requests whose response the oracle judged). A schema is non-trivial when it has at least one non-default feature and the oracle compared at least one user-defined type rebuilt from non-null introspection data; distinct = distinct SDL text per layout. (2) every decorated query shape with at most shape_max_nodes selection nodes containing __schema or __type, the name of each __type taken as literal / variable / defaulted variable from the name alphabet in bounds (existing user type, root type, built-in scalar, introspection type, a name not in the schema, the empty string, an existing name in another case; shapes above shape_type_names_full_upto_nodes nodes use the short alphabet); with introspection disabled every meta field must be null with an error at its path and look the same whatever name was asked for, with introspection enabled a name not in the schema must give a plain null; valid ones (gqlparser validator) are executed with introspection enabled and disabled (2 evaluations); a shape is non-trivial when the enabled run returned a non-null value for its meta field, distinct = distinct query text per layout. (3) request histories, also on a federation probe (its own sentinel schema, _service{sdl}): for every gate configuration in bounds (documented AroundOperations gate after/before extension.Introspection{}, Introspection{} and a gating context mutator in both registration orders with the expectation that mutators run in registration order, the gating mutator alone, two servers over one / two executable schemas of the same generated package) every sequence of at most history_max_requests requests over {allowed caller, anonymous caller} x history_shapes; one fresh worker process per (configuration, first request) serves all sequences with that first request; every response is judged (1 evaluation): disabled for this caller -> null + error at the path + no schema string, enabled -> data, no error (absent type name: plain null); a sequence is non-trivial when it contains both an enabled and a disabled request, distinct by construction (configuration, sequence)."
+	c.Cov["rule"] = "Per probe layout: (1) every assignment of the schema feature grid with at most grid_max_nondefault_slots non-default slots (at most 2 when an element is renamed; quick crosses only the name shapes grid_name_shapes_in_pairs with a second feature), simplest first; the grid includes a name dimension for the object type, object / interface field, their arguments, input field, enum value, directive and directive argument: leading / trailing / inner underscore, single character, a sibling differing only in case, a Go keyword, a 96-character name; on the federation probe the one schema is es.Schema() itself, with everything the plugin injects (Query._service, Query._entities, _Any, _Entity, _Service, directives) compared exactly; each schema is served through the generated Config.Schema and queried with the standard introspection.Query, an extended query with includeDeprecated:true, the same with includeDeprecated:false, __type(name:) for every user type, and the standard query with introspection disabled (evaluations = requests whose response the oracle judged). A schema is non-trivial when it has at least one non-default feature and the oracle compared at least one user-defined type rebuilt from non-null introspection data; distinct = distinct SDL text per layout. (2) every decorated query shape with at most shape_max_nodes selection nodes containing __schema or __type, the name of each __type taken as literal / variable / defaulted variable from the name alphabet in bounds (existing user type, root type, built-in scalar, introspection type, a name not in the schema, the empty string, an existing name in another case; shapes above shape_type_names_full_upto_nodes nodes use the short alphabet); with introspection disabled every meta field must be null with an error at its path and look the same whatever name was asked for, with introspection enabled a name not in the schema must give a plain null; valid ones (gqlparser validator) are executed with introspection enabled and disabled (2 evaluations); a shape is non-trivial when the enabled run returned a non-null value for its meta field, distinct = distinct query text per layout. (3) request histories, also on a federation probe (its own sentinel schema, _service{sdl}): for every gate configuration in bounds (documented AroundOperations gate after/before extension.Introspection{}, Introspection{} and a gating context mutator in both registration orders with the expectation that mutators run in registration order, the gating mutator alone, two servers over one / two executable schemas of the same generated package) every sequence of at most history_max_requests requests over {allowed caller, anonymous caller} x history_shapes; one fresh worker process per (configuration, first request) serves all sequences with that first request; every response is judged (1 evaluation): disabled for this caller -> null + error at the path + no schema string, enabled -> data, no error (absent type name: plain null); a sequence is non-trivial when it contains both an enabled and a disabled request, distinct by construction (configuration, sequence)."
 	c.Cov["exhaustive"] = exhaustive
 	c.Cov["bounds"] = bounds
 	c.Cov["per_layout"] = perLayout
@@ -319,6 +322,7 @@ func main() {
 		"gqlparser's parser is trusted to turn SDL / default-value text into AST; the reference is an ast.Schema loaded separately from the one handed to the server",
 		"deprecationReason is compared up to the directive's default: a deprecated element reporting null and one reporting \"No longer supported\" rebuild to the same schema (the spec makes the reason optional)",
 		"built-in types and directives are checked for presence (String, Boolean, the __ types, every referenced type; @skip @include @deprecated @specifiedBy), user-defined elements exactly; lists that do not apply to a kind may be null or empty",
+		"on the federation probe the reference is a snapshot of es.Schema() taken before the first request (the sources are embedded in the generated package; there is no second copy to load)",
 		"the federation _service field is covered by the request histories only (federation probe, v2, one entity); its single-request hiding shapes are the plain / alias / fragment / @include(if:$v) forms of the history alphabet",
 		"all sequences that share a first request run in one worker process one after the other, so a response may also depend on the earlier sequences of that process; a violation is reported with its own sequence and --replay runs that sequence alone on a fresh process",
 		"@defer is not part of the disabled-mode shape alphabet (POST delivers only the first payload; deferred delivery belongs to C13)",
